@@ -75,4 +75,130 @@ theorem Of_loop (fuel : Nat) (ps opts : List Int) (hlen : ps.length < 2^63) :
         have hwl : m / 64 < ws.length := (List.getElem?_eq_some_iff.mp hw).1
         simp only [Option.bind_some, setIdx_ofNat ws _ hwl, ih]
 
+/-- the whole loop: `for _, i := range bitPositions { … }` on the buffer `ws` -/
+theorem Of_loop0 (fuel : Nat) (ps opts : List Int) (hlen : ps.length < 2^63) (hfuel : ps.length + 1 ≤ fuel)
+    (ws : List Nat) :
+    Gen.Ssa3.bitmap_Of_loop8 fuel ps opts (len ps) fuel (-1) ws = orBits ws ps := by
+  have := Of_loop fuel ps opts hlen ps 0 fuel ws (by simp) (by omega) (by omega)
+  simpa [len_eq] using this
+
+/-! The straight-line part of the generated definition, block by block (`ofA` = block 7 with the loop replaced by
+    `orBits`, `ofB` = block 4, `ofC` = block 2). -/
+
+/-- `nWords := (n + 63) >> 6; words := make([]uint64, nWords); for … ` -/
+def ofA (ps : List Int) (n : Int) : Option (List Nat) :=
+  (makeSlice (0 : Nat) (shrI32 (addI32 n 63) 6)).bind (fun ws => orBits ws ps)
+
+/-- `if n < 0 { n = 0 }; …` -/
+def ofB (ps : List Int) (n : Int) : Option (List Nat) :=
+  if decide (n < 0) = true then ofA ps 0 else ofA ps n
+
+/-- `if len(bitPositions) > 0 { max := bitPositions[len-1] + 1; if n < max { n = max } }; …` -/
+def ofC (ps : List Int) (n : Int) : Option (List Nat) :=
+  if decide (len ps > 0) = true then
+    (index ps (subI64 (len ps) 1)).bind (fun l =>
+      if decide (n < addI32 l 1) = true then ofB ps (addI32 l 1) else ofB ps n)
+  else ofB ps n
+
+theorem ofA_eq (ps : List Int) (n : Int) (h0 : 0 ≤ n) (h1 : n < 2^31 - 63) :
+    ofA ps n = orBits (zeros ((n + 63) / 64).toNat) ps := by
+  have e1 : addI32 n 63 = n + 63 := by rw [addI32]; exact wrap32_id (by omega) (by omega)
+  rw [ofA, e1, shrI32_6, makeSlice_toNat _ (by omega)]
+  rfl
+
+theorem ofB_eq (ps : List Int) (n : Int) (h1 : n < 2^31 - 63) :
+    ofB ps n = orBits (zeros (((if n < 0 then 0 else n) + 63) / 64).toNat) ps := by
+  rw [ofB]
+  by_cases h : n < 0
+  · simp only [h, decide_true, ↓reduceIte]; exact ofA_eq ps 0 (by omega) (by omega)
+  · simp only [h, decide_false, Bool.false_eq_true, ↓reduceIte]; exact ofA_eq ps n (by omega) h1
+
+theorem ofB_neg (ps : List Int) (n : Int) (hneg : ∃ p ∈ ps, p < 0) : ofB ps n = none := by
+  have hA : ∀ m, ofA ps m = none := by
+    intro m
+    rw [ofA]
+    cases makeSlice (0 : Nat) (shrI32 (addI32 m 63) 6) with
+    | none => rfl
+    | some ws => exact orBits_neg ps ws hneg
+  rw [ofB, hA, hA]; simp
+
+theorem ofC_eq (ps : List Int) (n : Int) (hlen : ps.length < 2^63)
+    (hlast : ∀ l, ps.getLast? = some l → l < 2^31 - 64) (hn : n < 2^31 - 63) :
+    ofC ps n = bmOf ps (some n) := by
+  rw [ofC, bmOf]
+  cases hl : ps.getLast? with
+  | none =>
+    have hnil : ps = [] := List.getLast?_eq_none_iff.mp hl
+    subst hnil
+    simp only [len_eq, List.length_nil, Int.natCast_zero, Int.lt_irrefl, gt_iff_lt, decide_false, Bool.false_eq_true,
+      ↓reduceIte, Option.getD_some]
+    exact ofB_eq [] n hn
+  | some l =>
+    have hne : ps ≠ [] := by intro h; rw [h] at hl; cases hl
+    have hpos : 0 < ps.length := List.length_pos_iff.mpr hne
+    have hposI : (ps.length : Int) > 0 := by omega
+    have e1 : subI64 (ps.length : Int) 1 = ((ps.length - 1 : Nat) : Int) := subI64_ofNat (a := ps.length) (b := 1) (by omega) (by omega)
+    have hidx : ps[ps.length - 1]? = some l := by rw [← List.getLast?_eq_getElem?]; exact hl
+    have hl1 := hlast l hl
+    simp only [len_eq, hposI, decide_true, ↓reduceIte, e1, index_ofNat, hidx, Option.bind_some, Option.getD_some]
+    by_cases hneg : l < 0
+    · have hex : ∃ p ∈ ps, p < 0 := ⟨l, List.mem_of_getElem? hidx, hneg⟩
+      rw [ofB_neg ps _ hex, ofB_neg ps _ hex, orBits_neg ps _ hex]; simp
+    · have e2 : addI32 l 1 = l + 1 := by rw [addI32]; exact wrap32_id (by omega) (by omega)
+      rw [e2]
+      by_cases hlt : n < l + 1
+      · simp only [hlt, decide_true, ↓reduceIte]; exact ofB_eq ps (l + 1) (by omega)
+      · simp only [hlt, decide_false, Bool.false_eq_true, ↓reduceIte]; exact ofB_eq ps n hn
+
+/-- Domain.  `bitPositions` and `opts` are slices of int32; the proof needs less than that, namely
+    * `ps.length < 2^63` (a Go length fits an `int`),
+    * the LAST position is `< 2^31 - 64` (hypothesis `hlast`) and `opts[0]`, if present, is `≤ 2^31 - 64` (`hopt`):
+      the Go code computes `bitPositions[last] + 1` and `(n + 63) >> 6` in int32, the model in unbounded integers.
+      Beyond these bounds the two DIFFER (outside the documented domain): for `2^31 - 64 < n ≤ 2^31 - 1` the int32 sum
+      `n + 63` wraps to a negative number and `make` panics (`none`), and for a last position `2^31 - 1` the sum
+      `+ 1` wraps to `-2^31` and is ignored, whereas the model allocates `2^25` words and may return a bitmap.
+    No other hypothesis: positions need not be ascending, non-negative or in int32 range (`i >> 6` and `i & 63` are
+    the floor division and the Euclidean remainder on both sides); a negative position, or one beyond the
+    allocated words (possible when the positions are not ascending), panics on both sides (`none`); `opts[0]` may be
+    negative (then it counts as 0); only `opts[0]` is read.
+    Fuel: every `fuel ≥ len(bitPositions) + 1`. -/
+theorem Tie_bitmap_Of (ps : List Int) (opts : List Int) (fuel : Nat) (hlen : ps.length < 2^63)
+    (hlast : ∀ l, ps.getLast? = some l → l < 2^31 - 64) (hopt : ∀ n, opts.head? = some n → n < 2^31 - 63)
+    (hfuel : ps.length + 1 ≤ fuel) :
+    Gen.Ssa3.bitmap_Of fuel ps opts = bmOf ps opts.head? := by
+  have hcode : Gen.Ssa3.bitmap_Of fuel ps opts
+      = if decide (len opts > 0) = true then (index opts 0).bind (fun t2 => ofC ps t2) else ofC ps 0 := by
+    rw [Gen.Ssa3.bitmap_Of]
+    simp only [Of_loop0 fuel ps opts hlen hfuel]
+    rfl
+  rw [hcode]
+  cases opts with
+  | nil =>
+    simp only [len_eq, List.length_nil, Int.natCast_zero, Int.lt_irrefl, gt_iff_lt, decide_false, Bool.false_eq_true,
+      ↓reduceIte, List.head?_nil]
+    rw [ofC_eq ps 0 hlen hlast (by omega)]
+    rfl
+  | cons a rest =>
+    have hpos : ((rest.length + 1 : Nat) : Int) > 0 := by omega
+    have hidx : index (a :: rest) 0 = some a := by unfold index; simp
+    simp only [len_eq, List.length_cons, hpos, decide_true, ↓reduceIte, hidx, Option.bind_some, List.head?_cons]
+    exact ofC_eq ps a hlen hlast (hopt a rfl)
+
+/-- the same under element-wise bounds (every position `< 2^31 - 64`, every option `≤ 2^31 - 64`) -/
+theorem Tie_bitmap_Of_all (ps : List Int) (opts : List Int) (fuel : Nat) (hlen : ps.length < 2^63)
+    (hps : ∀ p ∈ ps, p < 2^31 - 64) (hopts : ∀ n ∈ opts, n < 2^31 - 63) (hfuel : ps.length + 1 ≤ fuel) :
+    Gen.Ssa3.bitmap_Of fuel ps opts = bmOf ps opts.head? :=
+  Tie_bitmap_Of ps opts fuel hlen (fun l hl => hps l (List.mem_of_getLast? hl))
+    (fun n hn => hopts n (List.mem_of_head? hn)) hfuel
+
+example : Gen.Ssa3.bitmap_Of 4 [1, 3, 64] [] = some [10, 1] := by decide
+example : bmOf [1, 3, 64] none = some [10, 1] := by decide
+example : Gen.Ssa3.bitmap_Of 4 [1, 3, 64] [200] = some [10, 1, 0, 0] := by decide
+-- a negative position, a position beyond the allocated words (not ascending): panic
+example : Gen.Ssa3.bitmap_Of 4 [-1, 3, 64] [] = none := by decide
+example : Gen.Ssa3.bitmap_Of 4 [1, 300, 64] [] = none := by decide
+example : bmOf [1, 300, 64] none = none := by decide
+-- out of fuel
+example : Gen.Ssa3.bitmap_Of 3 [1, 3, 64] [] = none := by decide
+
 end Low
